@@ -6,6 +6,7 @@ import (
 	"encoding/binary"
 	"fmt"
 	"github.com/ucan-wg/go-ucan/pkg/command"
+	"io"
 	"sort"
 	"strings"
 	"sync"
@@ -24,7 +25,7 @@ import (
 func init() {
 	register(stream{
 		name: "container",
-		rule: "sets of 0–4 sealed delegations and invocations written with every writer (4 formats × {bytes, io.Writer}) and read with every reader (4 formats × {bytes, 1-byte reads, data-with-EOF reads, random chunkings}); single-entry corruptions of the written container (bit flips in the data, the stored CID and the length prefix, a token with a bad signature, duplicated and reordered blocks, a block stored under a CID of another codec/hash, a wrong version, trailing bytes); truncation at EVERY byte offset and a read fault at every offset (every 3rd in the quick tier, plus always the structural offsets: around each section boundary and right after each length prefix); unrelated writers and readers used from 8 goroutines at once; a write fault at EVERY write call of every writer including the final flush of the base64 encoders; single tokens: FromSealedReader under five chunkings, cut and failing at every offset, ToSealedWriter failing at every write call. Compared: error/ok and the set of CIDs. Added later: a later CAR block stored under the CID of an earlier one (own data, garbage, truncated data); a container used as the proof loader of its own invocations, one of which names an invocation as proof; an honest stream read right after every failed or cut read (generic and typed readers); a read fault reported once together with data, the stream then continuing (every offset × 4 chunkings). Non-trivial = every case but the unmodified round trips. Distinct = distinct protocol lines.",
+		rule: "sets of 0–4 sealed delegations and invocations written with every writer (4 formats × {bytes, io.Writer}) and read with every reader (4 formats × {bytes, 1-byte reads, data-with-EOF reads, random chunkings}); single-entry corruptions of the written container (bit flips in the data, the stored CID and the length prefix, a token with a bad signature, duplicated and reordered blocks, a block stored under a CID of another codec/hash, a wrong version, trailing bytes); truncation at EVERY byte offset and a read fault at every offset (every 3rd in the quick tier, plus always the structural offsets: around each section boundary and right after each length prefix); unrelated writers and readers used from 8 goroutines at once; a write fault at EVERY write call of every writer including the final flush of the base64 encoders; single tokens: FromSealedReader under five chunkings, cut and failing at every offset, ToSealedWriter failing at every write call. Compared: error/ok and the set of CIDs. Added later: a later CAR block stored under the CID of an earlier one (own data, garbage, truncated data); a container used as the proof loader of its own invocations, one of which names an invocation as proof; an honest stream read right after every failed or cut read (generic and typed readers); a read fault reported once together with data, the stream then continuing (every offset × 4 chunkings). Sets of 23, 24, 25 (255–257 thorough) tokens — where a CBOR list length changes its encoding — written and read back through every variant; read faults reported with an error that WRAPS io.EOF (a failure, not a clean end) at every offset and section boundary; tokens with one field of 5 kB … 1.6 MB through every stream entry point. Non-trivial = every case but the unmodified round trips. Distinct = distinct protocol lines.",
 		run:  runContainerStream,
 		eval: evalContainer,
 		cmp: func(line, g, m string) string {
@@ -164,6 +165,10 @@ func readContainer(format, variant, ending string, b []byte) (out string) {
 	if ending == "fault" {
 		rd.FailAt = len(b)
 	}
+	if strings.HasPrefix(variant, "wrapeof-") { // the fault is reported with an error that wraps io.EOF
+		rd.Err = faultio.ErrWrappedEOF
+		variant = strings.TrimPrefix(variant, "wrapeof-")
+	}
 	switch {
 	case variant == "stream1":
 		rd.Chunks = []int{1}
@@ -208,6 +213,8 @@ func evalContainer(line string) (string, string) {
 		return containerAsLoader(), line
 	case "go.tok.stream":
 		return tokenStreamCheck(f[1], f[2], f[3]), line
+	case "go.tok.streambig":
+		return tokenStreamBig(f[1], f[2]), line
 	}
 	return "bad-line", line
 }
@@ -218,7 +225,11 @@ func sealedSet(c *ctx, n int) [][]byte {
 	var out [][]byte
 	for i := 0; i < n; i++ {
 		kind := []string{"dlg", "inv"}[i%2]
-		b, _, _, err := sealFixture(kind, []string{"ed25519", "p256", "secp256k1"}[i%3], i)
+		shape := i
+		if i >= 100 {
+			shape = 1000 + i // (shapes 100–199 carry one very large field)
+		}
+		b, _, _, err := sealFixture(kind, []string{"ed25519", "p256", "secp256k1"}[i%3], shape)
 		if err == nil {
 			out = append(out, b)
 		}
@@ -265,7 +276,11 @@ func containerWriteCheck(format, ns string) string {
 	fmt.Sscan(ns, &n)
 	var sealed [][]byte
 	for i := 0; i < n; i++ {
-		b, _, _, err := sealFixture([]string{"dlg", "inv"}[i%2], "ed25519", i)
+		shape := i
+		if i >= 100 {
+			shape = 1000 + i
+		}
+		b, _, _, err := sealFixture([]string{"dlg", "inv"}[i%2], "ed25519", shape)
 		if err != nil {
 			return "fixture: " + err.Error()
 		}
@@ -373,6 +388,10 @@ func tokenStreamCheck(kind, alg, ns string) (out string) {
 		if _, err := read(&faultio.Reader{Data: b, FailAt: off, Chunks: []int{1 + off%4}}); err == nil {
 			return fmt.Sprintf("FromSealedReader returned no error although the reader failed at offset %d of %d", off, len(b))
 		}
+		// the same failure reported with an error that WRAPS io.EOF: still a failure
+		if _, err := read(&faultio.Reader{Data: b, FailAt: off, Err: faultio.ErrWrappedEOF, Chunks: []int{1 + off%4}}); err == nil {
+			return fmt.Sprintf("FromSealedReader returned no error although the reader failed (an error wrapping io.EOF) at offset %d of %d", off, len(b))
+		}
 		// a fault reported once TOGETHER WITH data, after which the stream continues: the reader failed, so no token
 		if off < len(b) {
 			for _, ch := range [][]int{{1}, {3}, {7, 2}, nil} {
@@ -432,6 +451,98 @@ func tokenStreamCheck(kind, alg, ns string) (out string) {
 		if got, err := write(fw); err == nil && (!sigDeterministic(alg) || !bytes.Equal(fw.Buf, probe.Buf)) {
 			return fmt.Sprintf("write call %d of %d failed but ToSealedWriter returned %s and no error", call, probe.Calls, got)
 		}
+	}
+	return "ok"
+}
+
+// tokenStreamBig: a token with one field of `size` bytes (beyond any internal buffer or limit a stream reader might have): the
+// three FromSealedReader entry points give the token and the CID that FromSealed gives for the same bytes, under several chunkings;
+// a stream cut or failing at a few offsets around the powers of two gives an error; ToSealedWriter writes the same bytes.
+func tokenStreamBig(kind, sizeStr string) (out string) {
+	defer func() {
+		if r := recover(); r != nil {
+			out = fmt.Sprint("panic ", r)
+		}
+	}()
+	var size int
+	fmt.Sscan(sizeStr, &size)
+	k := keyFor("ed25519", 0)
+	aud := keyFor("ed25519", 1)
+	var b []byte
+	var c cid.Cid
+	var err error
+	if kind == "dlg" {
+		t, e := delegation.Root(k.did, aud.did, command.MustParse("/big"), nil, delegation.WithMeta("big", bytes.Repeat([]byte{0x5a}, size)))
+		if e != nil {
+			return "fixture: " + e.Error()
+		}
+		b, c, err = t.ToSealed(k.priv)
+	} else {
+		t, e := invocation.New(k.did, aud.did, command.MustParse("/big"), nil, invocation.WithArgument("big", strings.Repeat("y", size)))
+		if e != nil {
+			return "fixture: " + e.Error()
+		}
+		b, c, err = t.ToSealed(k.priv)
+	}
+	if err != nil {
+		return "ToSealed: " + err.Error()
+	}
+	if _, c2, err := token.FromSealed(b); err != nil || c2 != c {
+		return fmt.Sprintf("FromSealed on a %d-byte token: cid equal=%v err=%v", len(b), c2 == c, err)
+	}
+	readers := map[string]func(io.Reader) (cid.Cid, error){
+		"token": func(r io.Reader) (cid.Cid, error) { _, g, e := token.FromSealedReader(r); return g, e },
+	}
+	if kind == "dlg" {
+		readers["delegation"] = func(r io.Reader) (cid.Cid, error) { _, g, e := delegation.FromSealedReader(r); return g, e }
+	} else {
+		readers["invocation"] = func(r io.Reader) (cid.Cid, error) { _, g, e := invocation.FromSealedReader(r); return g, e }
+	}
+	for name, rd := range readers {
+		for _, fr := range []*faultio.Reader{
+			{Data: b, FailAt: -1}, {Data: b, FailAt: -1, Chunks: []int{4096}}, {Data: b, FailAt: -1, Chunks: []int{65536}, DataEOF: true},
+			{Data: b, FailAt: -1, Chunks: []int{1000, 7}}, {Data: b, FailAt: -1, DataEOF: true},
+		} {
+			got, err := rd(fr)
+			if err != nil {
+				return fmt.Sprintf("%s.FromSealedReader rejects an honest %d-byte token that FromSealed accepts: %v", name, len(b), err)
+			}
+			if got != c {
+				return fmt.Sprintf("%s.FromSealedReader reports another CID than FromSealed for a %d-byte token", name, len(b))
+			}
+		}
+		for _, off := range []int{len(b) - 1, len(b) / 2, 1 << 20, 1<<20 + 1, 1 << 16, 4096, 1} {
+			if off <= 0 || off >= len(b) {
+				continue
+			}
+			if _, err := rd(&faultio.Reader{Data: b[:off], FailAt: -1, Chunks: []int{8192}}); err == nil {
+				return fmt.Sprintf("%s.FromSealedReader accepted a %d-byte token cut at %d", name, len(b), off)
+			}
+			if _, err := rd(&faultio.Reader{Data: b, FailAt: off, Chunks: []int{8192}}); err == nil {
+				return fmt.Sprintf("%s.FromSealedReader returned no error although the reader failed at %d of %d", name, off, len(b))
+			}
+		}
+	}
+	var sink bytes.Buffer
+	var wc cid.Cid
+	if kind == "dlg" {
+		t, _, e := delegation.FromSealed(b)
+		if e != nil {
+			return "FromSealed: " + e.Error()
+		}
+		wc, err = t.ToSealedWriter(&sink, k.priv)
+	} else {
+		t, _, e := invocation.FromSealed(b)
+		if e != nil {
+			return "FromSealed: " + e.Error()
+		}
+		wc, err = t.ToSealedWriter(&sink, k.priv)
+	}
+	if err != nil {
+		return "ToSealedWriter: " + err.Error()
+	}
+	if !bytes.Equal(sink.Bytes(), b) || wc != c {
+		return fmt.Sprintf("ToSealedWriter output or CID differs from ToSealed for a %d-byte token", len(b))
 	}
 	return "ok"
 }
@@ -607,6 +718,15 @@ func runContainerStream(c *ctx) error {
 		for n := 0; n <= 4; n++ {
 			c.emit(fmt.Sprintf("go.ctn.write %s %d", f, n), "container.write:"+f, true, "write:"+f)
 		}
+		// set sizes around the points where the encoding of a length changes (23/24; 255/256 in the thorough tier)
+		for _, n := range []int{23, 24, 25} {
+			c.emit(fmt.Sprintf("go.ctn.write %s %d", f, n), "container.write:"+f, true, "write:"+f)
+		}
+		if c.thoro {
+			for _, n := range []int{255, 256, 257} {
+				c.emit(fmt.Sprintf("go.ctn.write %s %d", f, n), "container.write:"+f, true, "write:"+f)
+			}
+		}
 	}
 	c.emit("go.ctn.concurrent", "container.concurrent", true, "concurrent")
 	c.emit("go.ctn.loader 0", "container.loader", true, "loader")
@@ -614,6 +734,30 @@ func runContainerStream(c *ctx) error {
 		for i, alg := range []string{"ed25519", "p256", "secp256k1"} {
 			c.emit(fmt.Sprintf("go.tok.stream %s %s %d", kind, alg, i), "token.stream:"+kind, true, "tokstream:"+kind)
 			c.emit(fmt.Sprintf("go.tok.stream %s %s %d", kind, alg, i+3), "token.stream:"+kind, true, "tokstream:"+kind)
+		}
+	}
+	// set sizes at which the length of a CBOR list changes its encoding (23/24, and 255/256 in the thorough tier): written by
+	// the library, read back through every variant
+	bigSets := []int{23, 24, 25}
+	if c.thoro {
+		bigSets = append(bigSets, 255, 256, 257)
+	}
+	for _, n := range bigSets {
+		sealed := sealedSet(c, n)
+		for _, f := range formats {
+			for _, useWriter := range []bool{false, true} {
+				b, err := writeWith(f, useWriter, sealed)
+				if err != nil {
+					continue
+				}
+				emitRead(f, "eof", b, "bytes", "roundtrip")
+				emitRead(f, "eof", b, "chunks64", "roundtrip")
+			}
+		}
+	}
+	for _, kind := range []string{"dlg", "inv"} {
+		for _, size := range []int{5000, 70000, 1 << 20, 1600000} {
+			c.emit(fmt.Sprintf("go.tok.streambig %s %d", kind, size), "token.stream:"+kind, true, "tokstream-big:"+kind)
 		}
 	}
 	for n := 0; n <= 3; n++ {
@@ -731,12 +875,19 @@ func runContainerStream(c *ctx) error {
 				emitRead(f, "fault", b[:off], []string{"stream1", "chunks5.2", "streamdata"}[off%3], "read-fault")
 			}
 			emitRead(f, "fault", b, "stream1", "read-fault")
+			emitRead(f, "fault", b, "wrapeof-stream1", "read-fault")
+			emitRead(f, "fault", b, "wrapeof-chunks4096", "read-fault")
+			for off := 0; off < len(b); off += 7 {
+				emitRead(f, "fault", b[:off], []string{"wrapeof-stream1", "wrapeof-chunks5.2", "wrapeof-chunks4096"}[off%3], "read-fault")
+			}
 			if f == "car" {
 				for _, off := range structuralOffsets(b) {
 					for _, v := range []string{"bytes", "stream1", "streamdata"} {
 						emitRead(f, "eof", b[:off], v, "truncated")
 					}
 					emitRead(f, "fault", b[:off], "chunks4", "read-fault")
+					emitRead(f, "fault", b[:off], "wrapeof-chunks4", "read-fault")
+					emitRead(f, "fault", b[:off], "wrapeof-chunks4096", "read-fault")
 				}
 			}
 			if f == "carb64" {
